@@ -719,6 +719,17 @@ func (env *SpecEnv) call(e *SExpr) Val {
 	case "bytes":
 		v := arg(0)
 		return Val{T: fmt.Sprintf("(mk_bytes false %s)", v.T), S: SBytes, GT: types.NewSlice(types.Typ[types.Uint8])}
+	case "aimed":
+		// aimed(x, s): every store reachable from x (a store, a master store's parts, a context struct) is aimed at state s
+		v, s := arg(0), arg(1)
+		if v.GT == nil {
+			env.fail("aimed: first argument has no Go type")
+		}
+		c := env.ex.aimedDeep(v.T, v.GT, env.cur, s.T, nil, 0)
+		if c == "" {
+			c = "true"
+		}
+		return Val{T: c, S: SBool}
 	case "isnil":
 		v := arg(0)
 		_, z := env.unifyNil(v, Val{S: "Nil"})
